@@ -290,6 +290,9 @@ func (v *vc) oblige(st *state, kind, label, site, cond string, props []string) *
 	if kind == "inv-init" || kind == "inv-keep" {
 		ob.origin = "inv:" + label + "@" + site
 	}
+	if kind == "ensures" || kind == "frame" || kind == "lemma" {
+		return ob // the path ends at a return: nothing downstream can use the fact
+	}
 	v.curOrigin = ob.origin
 	v.fact(st, cond)
 	v.curOrigin = ""
